@@ -157,6 +157,14 @@ var c06Reqs = []c06Req{
 	// failing resolvers after literals of different length (error locations)
 	{"lit-err-short", `{ echo(i:1) x1 leafy { sNN } }`, "", nil, map[string]string{"R@x1": FErr, "R@leafy.sNN": FErr}},
 	{"lit-err-long", `{ echo(i:123456) x1 leafy { sNN } }`, "", nil, map[string]string{"R@x1": FErr, "R@leafy.sNN": FPanicStr}},
+	// variable-driven directives inside lazily planned abstract selections
+	{"abs-dir-var", `query($h:Boolean!,$t:String){ node(as:$t) { id ... on A { aOnly @skip(if:$h) name @include(if:$h) } ... on B { bOnly @include(if:$h) } } u { ... on A { aOnly @skip(if:$h) } } }`, "",
+		[]map[string]interface{}{v("h", true, "t", "A"), v("h", false, "t", "A"), v("h", false, "t", "B"), v("h", true, "t", "B")}, nil},
+	{"abs-dir-var-list", `query($h:Boolean!){ nodes(n:3) { id ... @skip(if:$h) { name } ... on B { peer { id @skip(if:$h) name } } } }`, "",
+		[]map[string]interface{}{v("h", true), v("h", false)}, nil},
+	// valid for one of the two schemas only (world B has the root field onlyB)
+	{"only-b", `{ x1 onlyB }`, "", nil, nil},
+	{"only-b-lit", `{ onlyB echo(i:1) }`, "", nil, nil},
 	{"introspect", `{ __type(name:"Kind") { name kind } }`, "", nil, nil},
 	{"introspect-2", `{ __type(name:"Filter") { name kind } }`, "", nil, nil},
 }
@@ -351,7 +359,10 @@ func (c06) Run(t TestingT, scn json.RawMessage, tape *Tape) *Outcome {
 	if sc.Inter != nil {
 		return c06RunInterleaved(t, &sc, scn, tape)
 	}
+	WorldBOnlyField = true
+	defer func() { WorldBOnlyField = false }()
 	worlds := []*World{NewWorld("A"), NewWorld("B")}
+	seenSchema := map[*graphql.Schema]bool{}
 	var cache *graphql.PlanCache
 	if !sc.NilCache {
 		cache = graphql.NewPlanCache(graphql.PlanCacheOptions{MaxEntries: sc.MaxEntries, MaxQueryBytes: sc.MaxQueryBytes, Normalize: sc.Normalize})
@@ -389,6 +400,14 @@ func (c06) Run(t TestingT, scn json.RawMessage, tape *Tape) *Outcome {
 			}
 			pr := cache.Get(&w.Schema, rq.Query, rq.Op)
 			slots[i] = got{pr, w, op.Req}
+			if cache != nil && !seenSchema[&w.Schema] {
+				// nothing was ever stored for this schema: whatever the cache
+				// holds belongs to other schemas and must not be served
+				if h, _ := cache.HitsMisses(); h > lastHits {
+					o.Violate("C06/hit-across-schemas", "op %d: the first Get(%q) for a schema the cache has never seen was counted as a hit (normalize=%v)\nhistory: %s", i, rq.Query, sc.Normalize, strings.Join(log, "; "))
+				}
+				seenSchema[&w.Schema] = true
+			}
 			var res string
 			if len(pr.Errors) > 0 || pr.Plan == nil {
 				res = MarshalResult(&graphql.Result{Errors: pr.Errors})
@@ -473,7 +492,9 @@ func c06RunInterleaved(t TestingT, sc *C06Scn, scn json.RawMessage, tape *Tape) 
 	type res struct{ got, want, desc string }
 	results := map[string][]res{}
 	pan := Bubble(t, s, func() {
+		WorldBOnlyField = true
 		worlds := []*World{NewWorld("A"), NewWorld("B")}
+		WorldBOnlyField = false
 		cache := graphql.NewPlanCache(graphql.PlanCacheOptions{MaxEntries: sc.MaxEntries, Normalize: sc.Normalize})
 		for wi, w := range worlds {
 			w := w
